@@ -94,6 +94,7 @@ Lemma general_value_spec ftab mult name first rest :
    negb (match kb ftab mult (first :: rest) with [] => true | _ => false end)).
 Proof. rewrite general_value_text, values_counts_print. reflexivity. Qed.
 
+Local Opaque kept general_value clamp_to_finite write_float.
 Lemma write_metric_value_spec ftab mult name first rest :
   match metric_value ftab mult (first :: rest) with
   | Some v => write_metric_value ftab mult name first rest = (cm (name, v), true)
@@ -109,13 +110,15 @@ Proof.
     cbn [map negb]. rewrite !map_map. cbn [fst snd]. reflexivity. }
   unfold metric_value, write_metric_value.
   destruct first as [v | b | t occ]; destruct rest as [|r1 rs]; destruct mult as [m|];
-    try exact G.
+    try exact G; try (revert G; destruct (kept _ _ _); intros G; exact G).
   - (* OUnsigned, [], None *)
-    unfold cm. cbn [fst snd print]. rewrite jstr_print_str. reflexivity.
+    unfold cm. cbn [fst snd print]. change jstr with print_str; rewrite <- !app_assoc. reflexivity.
   - (* OFloat, [], None *)
-    destruct (clamp_to_finite b); [|reflexivity].
-    unfold cm. cbn [fst snd print]. rewrite jstr_print_str. reflexivity.
+    destruct (clamp_to_finite b); cbv iota beta; [|reflexivity].
+    unfold cm. cbn [fst snd print]. change jstr with print_str; rewrite <- !app_assoc. reflexivity.
 Qed.
+Local Transparent kept general_value clamp_to_finite write_float.
+
 
 (* ---------------------------------------------------------------- declarations *)
 Lemma metric_decl_print name u fl :
@@ -125,9 +128,9 @@ Lemma metric_decl_print name u fl :
   (match fl with FHigh => bs ",""StorageResolution"":1}" | _ => bs "}" end).
 Proof.
   unfold metric_decl. rewrite print_obj_cons. unfold member. cbn [fst snd print].
-  rewrite !jstr_print_str.
+  change jstr with print_str.
   destruct u as [|n]; destruct fl; cbn [app map concat]; unfold cm, comma; cbn [fst snd print];
-    rewrite ?jstr_print_str; lits; flat; reflexivity.
+    lits; flat; reflexivity.
 Qed.
 
 Lemma metric_decl_nonempty name u fl : print (metric_decl name u fl) <> [].
@@ -151,7 +154,7 @@ Qed.
 (* ---------------------------------------------------------------- one metric on a (fields, metrics) buffer pair *)
 Record BufRel (fb mb : pbuf) (P H : bytes) (members : list (bytes * json)) (decls : list json) : Prop := {
   br_f : pdata fb = P ++ r_cm members;
-  br_fp : plen fb <= length P;
+  br_fp : plen fb = length P;
   br_m : pdata mb = H ++ r_decls decls;
   br_mp : plen mb = length H;
   br_ne : Forall (fun j => print j <> []) decls
@@ -191,4 +194,494 @@ Proof.
       split; [|split; reflexivity].
       constructor; try assumption.
       cbn [pb_truncate pb_push pdata]. unfold pb_len. rewrite firstn_app_exact. exact Hf.
+Qed.
+
+(* ---------------------------------------------------------------- the simulation relation *)
+Definition keymembers (key : list (bytes * bytes)) : list (bytes * json) :=
+  map (fun kv => (fst kv, JStr (snd kv))) key.
+Definition head0 (c : config) : bytes := bs "{""_aws"":{""CloudWatchMetrics"":[{""Namespace"":" ++ first_ns c.
+Definition set_sets (each : list (list bytes)) (key : list (bytes * bytes)) : list (list bytes) :=
+  map (fun base => base ++ map fst key) each.
+Definition set_head (c : config) (each : list (list bytes)) (key : list (bytes * bytes)) : bytes :=
+  head0 c ++ bs ",""Dimensions"":[" ++ join comma (map jarr_strings (set_sets each key)) ++ bs "],""Metrics"":[".
+
+Record RelSet (c : config) (d : dset) (a : aset) : Prop := {
+  rs_key : ds_key d = as_key a;
+  rs_buf : BufRel (ds_fields d) (ds_metrics d) (bs "}" ++ r_cm (keymembers (as_key a)))
+                  (set_head c (as_each a) (as_key a)) (as_members a) (as_decls a);
+  rs_after : ds_after_ns d = length (head0 c)
+}.
+
+Record Rel (c : config) (w : writer) (a : astate) : Prop := {
+  r_sf : pdata (string_fields (w_state w)) = r_cm (a_strings a);
+  r_sfp : plen (string_fields (w_state w)) = 0;
+  r_glob : BufRel (fields (w_state w)) (metrics (w_state w)) (bs "}") (bs "],""Metrics"":[") (a_members a) (a_decls a);
+  r_decl : pdata (decl (w_state w)) = extra_directives c;
+  r_sets : Forall2 (RelSet c) (dsmap (w_state w)) (a_sets a);
+  r_ed : entry_dims w = option_map (map jarr_strings) (a_edims a);
+  r_ts : w_timestamp w = a_ts a
+}.
+
+Lemma pb_clear_new p : pb_clear (pb_new p) = pb_new p.
+Proof. unfold pb_clear, pb_new. cbn [plen pdata]. rewrite firstn_all. reflexivity. Qed.
+
+Lemma rel_init c : Rel c (init_writer c (st (fresh c))) a_init.
+Proof.
+  unfold init_writer, prologue, fresh. cbn [st string_fields fields metrics decl].
+  rewrite !pb_clear_new.
+  constructor; cbn; try reflexivity.
+  - constructor; cbn; try reflexivity; try (rewrite ?app_nil_r; reflexivity). constructor.
+  - constructor.
+Qed.
+
+(* lookups and updates of the two set tables correspond *)
+Lemma find_rel c key : forall ds sets, Forall2 (RelSet c) ds sets ->
+  match ds_find ds key, as_find sets key with
+  | Some d, Some a => RelSet c d a
+  | None, None => True
+  | _, _ => False
+  end.
+Proof.
+  induction 1 as [|d a ds sets Hda HF IH]; cbn [ds_find as_find]; [exact I|].
+  rewrite <- (rs_key c d a Hda). destruct (key_eqb (ds_key d) key); [exact Hda | exact IH].
+Qed.
+Lemma update_rel c d' a' : RelSet c d' a' -> forall ds sets, Forall2 (RelSet c) ds sets ->
+  Forall2 (RelSet c) (ds_update ds d') (as_update sets a').
+Proof.
+  intros Hn. induction 1 as [|d a ds sets Hda HF IH]; cbn [ds_update as_update].
+  - constructor; [exact Hn | constructor].
+  - rewrite <- (rs_key c d a Hda), <- (rs_key c d' a' Hn).
+    destruct (key_eqb (ds_key d) (ds_key d')); constructor; assumption.
+Qed.
+Lemma forall2_length {A B} (R : A -> B -> Prop) l1 l2 : Forall2 R l1 l2 -> length l1 = length l2.
+Proof. induction 1; cbn; congruence. Qed.
+
+Lemma key_fields_text key :
+  flat_map (fun kv : bytes * bytes => comma ++ jstr (fst kv) ++ [58%N] ++ jstr (snd kv)) key = r_cm (keymembers key).
+Proof.
+  unfold r_cm, keymembers. induction key as [|[k v] r IH]; [reflexivity|].
+  cbn [flat_map map concat]. rewrite IH. unfold cm. cbn [fst snd print]. reflexivity.
+Qed.
+
+Lemma dset_new_rel c each key idx :
+  RelSet c (dset_new c (map jarr_strings each) key idx) (mk_aset key each [] []).
+Proof.
+  unfold dset_new. constructor; cbn [ds_key as_key ds_fields ds_metrics ds_after_ns as_members as_decls as_each].
+  - reflexivity.
+  - constructor; cbn [pb_new pdata plen];
+      change (r_cm []) with (@nil N); change (r_decls []) with (@nil N); rewrite ?app_nil_r.
+    + rewrite key_fields_text. reflexivity.
+    + rewrite key_fields_text. reflexivity.
+    + unfold set_head, head0, set_sets. rewrite !map_map.
+      assert (E : map (fun d => extend_with_strings (jarr_strings d) (map fst key)) each
+                  = map (fun x => jarr_strings (x ++ map fst key)) each)
+        by (apply map_ext; intros; apply extend_with_strings_spec).
+      rewrite E. rewrite <- !app_assoc. reflexivity.
+    + unfold set_head, head0, set_sets. rewrite !map_map.
+      assert (E : map (fun d => extend_with_strings (jarr_strings d) (map fst key)) each
+                  = map (fun x => jarr_strings (x ++ map fst key)) each)
+        by (apply map_ext; intros; apply extend_with_strings_spec).
+      rewrite E. rewrite <- !app_assoc. reflexivity.
+    + constructor.
+  - reflexivity.
+Qed.
+
+Lemma rel_frame c w w' a :
+  w_state w' = w_state w -> entry_dims w' = entry_dims w -> w_timestamp w' = w_timestamp w ->
+  Rel c w a -> Rel c w' a.
+Proof. intros Hs He Ht [A B C D E F G]. constructor; rewrite ?Hs, ?He, ?Ht; assumption. Qed.
+
+Lemma entry_dims_enc d : forall dd,
+  flat_map (fun base => map (fun e => extend_with_strings base e) d) (map jarr_strings dd)
+  = map jarr_strings (flat_map (fun base => map (fun e => base ++ e) d) dd).
+Proof.
+  induction dd as [|b r IH]; [reflexivity|]. cbn [map flat_map]. rewrite IH, map_app. f_equal.
+  rewrite map_map. apply map_ext. intros e. apply extend_with_strings_spec.
+Qed.
+
+From MV Require Import Emf.Validate Emf.Complete.
+
+Lemma fold_add_error_frame (msgs : list bytes) name : forall w,
+  let w' := fold_left (fun w m => add_error w (for_field name m)) msgs w in
+  w_state w' = w_state w /\ entry_dims w' = entry_dims w /\ w_timestamp w' = w_timestamp w.
+Proof.
+  induction msgs as [|m ms IH]; intros w; cbn [fold_left]; [repeat split; reflexivity|].
+  specialize (IH (add_error w (for_field name m))). cbv zeta in IH. exact IH.
+Qed.
+
+Lemma rel_do_metric c ftab mult w a name os u dims fl :
+  Rel c w a ->
+  Rel c (do_metric c ftab mult w name os u dims fl) (astep c ftab mult a (IValue name (VMetric os u dims fl))).
+Proof.
+  intros HR. pose proof HR as [A B C D E F G]. unfold do_metric. cbn [astep].
+  set (w1 := if negb _ && negb (allow_split w) then _ else w).
+  assert (S1 : w_state w1 = w_state w) by (unfold w1; destruct (negb _ && negb _); reflexivity).
+  assert (E1 : entry_dims w1 = entry_dims w) by (unfold w1; destruct (negb _ && negb _); reflexivity).
+  assert (T1 : w_timestamp w1 = w_timestamp w) by (unfold w1; destruct (negb _ && negb _); reflexivity).
+  rewrite S1, E1.
+  destruct (allow_ignored c || match dims with [] => true | _ :: _ => false end).
+  - (* global record *)
+    pose proof (write_metric_rel ftab mult name os u fl _ _ _ _ _ _ C) as HW.
+    destruct (write_metric ftab mult name os u fl (fields (w_state w)) (metrics (w_state w))) as [fb mb].
+    destruct (add_metric ftab mult name os u fl (a_members a) (a_decls a)) as [m' d'].
+    destruct HW as [HB _].
+    set (w2 := if negb (skip_unique c) && negb (unroutable w1) then validate_metric w1 name 0 else w1).
+    assert (S2 : w_state w2 = w_state w1 /\ entry_dims w2 = entry_dims w1 /\ w_timestamp w2 = w_timestamp w1).
+    { unfold w2. destruct (negb (skip_unique c) && negb (unroutable w1)); [|repeat split; reflexivity].
+      pose proof (validate_metric_frame w1 name 0) as V. cbv zeta in V. tauto. }
+    destruct S2 as (S2 & E2 & T2).
+    constructor; cbn [set_state w_state entry_dims w_timestamp string_fields fields metrics decl dsmap
+                      a_strings a_members a_decls a_sets a_edims a_ts];
+      rewrite ?E2, ?T2, ?E1, ?T1; assumption.
+  - (* a dimension-set record *)
+    set (key := sort_dims dims).
+    pose proof (find_rel c key _ _ E) as HF.
+    assert (Heach : match entry_dims w with Some e => e | None => each_dims_enc c end = map jarr_strings (base_dims c a)).
+    { unfold base_dims. rewrite F. destruct (a_edims a); reflexivity. }
+    rewrite Heach.
+    set (d0 := match ds_find (dsmap (w_state w)) key with Some d => d | None => dset_new c (map jarr_strings (base_dims c a)) key _ end).
+    set (s0 := match as_find (a_sets a) key with Some s => s | None => mk_aset key (base_dims c a) [] [] end).
+    assert (R0 : RelSet c d0 s0).
+    { unfold d0, s0. destruct (ds_find (dsmap (w_state w)) key), (as_find (a_sets a) key); try contradiction; [exact HF|].
+      apply dset_new_rel. }
+    pose proof (write_metric_rel ftab mult name os u fl _ _ _ _ _ _ (rs_buf c d0 s0 R0)) as HW.
+    destruct (write_metric ftab mult name os u fl (ds_fields d0) (ds_metrics d0)) as [fb mb].
+    destruct (add_metric ftab mult name os u fl (as_members s0) (as_decls s0)) as [m' d'].
+    destruct HW as [HB _].
+    set (w2 := if negb (skip_unique c) && negb (unroutable w1) then validate_metric w1 name (ds_index d0) else w1).
+    assert (S2 : w_state w2 = w_state w1 /\ entry_dims w2 = entry_dims w1 /\ w_timestamp w2 = w_timestamp w1).
+    { unfold w2. destruct (negb (skip_unique c) && negb (unroutable w1)); [|repeat split; reflexivity].
+      pose proof (validate_metric_frame w1 name (ds_index d0)) as V. cbv zeta in V. tauto. }
+    destruct S2 as (S2 & E2 & T2).
+    constructor; cbn [set_state w_state entry_dims w_timestamp string_fields fields metrics decl dsmap
+                      a_strings a_members a_decls a_sets a_edims a_ts];
+      rewrite ?E2, ?T2, ?E1, ?T1; try assumption.
+    apply update_rel; [|exact E].
+    constructor; cbn [ds_key ds_fields ds_metrics ds_after_ns as_key as_each as_members as_decls].
+    + exact (rs_key c d0 s0 R0).
+    + exact HB.
+    + exact (rs_after c d0 s0 R0).
+Qed.
+
+Lemma rel_step c ftab mult w a i :
+  Rel c w a -> errors (do_item c ftab mult w i) = [] ->
+  Rel c (do_item c ftab mult w i) (astep c ftab mult a i).
+Proof.
+  intros HR Hno. destruct i as [t | ci | name v]; cbn [do_item] in *.
+  - (* timestamp *)
+    destruct (w_timestamp w) eqn:Ets; [exfalso; exact (add_error_not_nil _ _ Hno)|].
+    destruct HR as [A B C D E F G]. constructor; cbn; assumption || reflexivity.
+  - unfold do_config in *. destruct ci as [| | d |].
+    + destruct HR as [A B C D E F G]. constructor; cbn; assumption.
+    + destruct HR as [A B C D E F G]. constructor; cbn; assumption.
+    + destruct (negb match dsmap (w_state w) with [] => true | _ :: _ => false end);
+        [exfalso; exact (add_error_not_nil _ _ Hno)|].
+      destruct (match entry_dims w with Some _ => true | None => false end);
+        [exfalso; exact (add_error_not_nil _ _ Hno)|].
+      destruct d as [|d0 dr]; [exfalso; exact (add_error_not_nil _ _ Hno)|].
+      set (w1 := if negb (skip_unique c) || negb (skip_dims c) then fold_left (check_entry_dim c) (concat (d0 :: dr)) w else w) in *.
+      assert (F1 : w_state w1 = w_state w /\ w_timestamp w1 = w_timestamp w).
+      { unfold w1. destruct (negb (skip_unique c) || negb (skip_dims c)); [|split; reflexivity].
+        pose proof (fold_check_frame c (concat (d0 :: dr)) w) as F. cbv zeta in F. tauto. }
+      destruct F1 as [F1 F2]. destruct HR as [A B C D E F G].
+      constructor; cbn [astep w_state entry_dims w_timestamp a_strings a_members a_decls a_sets a_edims a_ts];
+        rewrite ?F1, ?F2; try assumption.
+      unfold each_dims_enc. rewrite entry_dims_enc. reflexivity.
+    + exact HR.
+  - unfold do_value in *. destruct (validate_name c w name) as [w1 ok] eqn:Hv. destruct ok; cbn [negb] in *.
+    2: { exfalso. exact (validate_name_false _ _ _ _ Hv Hno). }
+    apply validate_name_true in Hv. subst w1.
+    destruct v as [| s0 | msgs | os u dims fl].
+    + exact HR.
+    + (* string property *)
+      unfold do_string. cbn [astep].
+      set (w1 := set_state w _).
+      assert (R1 : Rel c w1 (mk_astate (a_strings a ++ [(name, JStr s0)]) (a_members a) (a_decls a) (a_sets a)
+                                        (a_edims a) (a_ts a) (a_split a))).
+      { destruct HR as [A B C D E F G]. unfold w1.
+        constructor; cbn [set_state w_state entry_dims w_timestamp string_fields fields metrics decl dsmap pb_push pdata plen
+                          a_strings a_members a_decls a_sets a_edims a_ts]; try assumption.
+        rewrite A, r_cm_snoc. unfold cm. cbn [fst snd print]. reflexivity. }
+      destruct (skip_unique c); [exact R1|].
+      pose proof (validate_string_frame w1 name) as V. cbv zeta in V. destruct V as (V1 & V2 & V3 & _).
+      apply (rel_frame c w1); assumption.
+    + pose proof (fold_add_error_frame msgs name w) as V. cbv zeta in V. destruct V as (V1 & V2 & V3).
+      apply (rel_frame c w); assumption.
+    + apply rel_do_metric. exact HR.
+Qed.
+
+Lemma rel_fold c ftab mult e : forall w a,
+  Rel c w a -> errors (fold_left (do_item c ftab mult) e w) = [] ->
+  Rel c (fold_left (do_item c ftab mult) e w) (fold_left (astep c ftab mult) e a).
+Proof.
+  induction e as [|i e IH]; intros w a HR Hno; cbn [fold_left] in *; [exact HR|].
+  apply IH; [|exact Hno]. apply rel_step; [exact HR|].
+  exact (grows_nil _ _ (grows_fold_items c ftab mult e (do_item c ftab mult w i)) Hno).
+Qed.
+
+(* ================================================================ finish: buffers -> printed documents *)
+From MV Require Import C16.Proofs.
+
+Lemma write_all_vectored_accept_all bufs rec : write_all_vectored [] bufs rec = ([], rec ++ concat bufs, WOk).
+Proof.
+  unfold write_all_vectored. pose proof (advance_zero bufs) as Hz.
+  destruct (advance bufs 0) as [|s r]; cbn [write_all].
+  - cbn in Hz. rewrite <- Hz, app_nil_r. reflexivity.
+  - rewrite Hz. reflexivity.
+Qed.
+
+Lemma cm_nonempty x : cm x <> [].
+Proof. unfold cm, comma. discriminate. Qed.
+Lemma r_cm_nil_iff l : r_cm l = [] <-> l = [].
+Proof.
+  split; [|intros ->; reflexivity]. destruct l as [|x r]; [reflexivity|].
+  unfold r_cm. cbn [map concat]. intros H. apply app_eq_nil in H. destruct H as [H _]. destruct (cm_nonempty x H).
+Qed.
+
+Lemma bufrel_is_empty fb mb P H members decls :
+  BufRel fb mb P H members decls -> pb_is_empty fb = match members with [] => true | _ => false end.
+Proof.
+  intros [Hf Hfp _ _ _]. unfold pb_is_empty. rewrite Hf, Hfp, app_length.
+  destruct members as [|m ms].
+  - cbn. rewrite PeanoNat.Nat.add_0_r. apply PeanoNat.Nat.eqb_refl.
+  - apply PeanoNat.Nat.eqb_neq. intros Heq.
+    assert (Hz : length (r_cm (m :: ms)) = 0) by lia.
+    apply length_zero_iff_nil in Hz. apply r_cm_nil_iff in Hz. discriminate.
+Qed.
+
+(* the slice copied by extend_from_within is stable while only appends happen *)
+Lemma slice_stable (data extra : bytes) st_ :
+  st_ <= length data ->
+  firstn (length data - st_) (skipn st_ (data ++ extra)) = skipn st_ data.
+Proof.
+  intros Hle. rewrite skipn_app. replace (st_ - length data) with 0 by lia. cbn [skipn].
+  rewrite firstn_app. rewrite skipn_length. replace (length data - st_ - (length data - st_)) with 0 by lia.
+  cbn [firstn]. rewrite app_nil_r. apply firstn_all2. rewrite skipn_length. lia.
+Qed.
+
+Lemma fold_extend_text (nss : list bytes) (data0 : bytes) p st_ (g : bytes -> bytes) :
+  st_ <= length data0 ->
+  forall mb, pdata mb = data0 ++ p ->
+  pdata (fold_left (fun mb ns => pb_extend_within (pb_push mb (g ns)) st_ (length data0)) nss mb)
+  = data0 ++ p ++ concat (map (fun ns => g ns ++ skipn st_ data0) nss).
+Proof.
+  intros Hle. revert p. induction nss as [|ns nss IH]; intros p mb Hmb; cbn [fold_left map concat].
+  - rewrite app_nil_r. exact Hmb.
+  - rewrite (IH (p ++ g ns ++ skipn st_ data0)).
+    + rewrite <- !app_assoc. reflexivity.
+    + cbn [pb_extend_within pb_push pdata]. rewrite Hmb.
+      replace ((data0 ++ p) ++ g ns) with (data0 ++ (p ++ g ns)) by (rewrite app_assoc; reflexivity).
+      rewrite slice_stable by exact Hle. rewrite <- !app_assoc. reflexivity.
+Qed.
+
+(* ---------------------------------------------------------------- printed shapes of the metadata block *)
+Definition slice_text (sets : list (list bytes)) (decls : list json) : bytes :=
+  bs ",""Dimensions"":[" ++ join comma (map jarr_strings sets) ++ bs "],""Metrics"":[" ++ r_decls decls ++ bs "]}".
+
+Lemma dims_json_print sets : print (dims_json sets) = 91%N :: join comma (map jarr_strings sets) ++ [93%N].
+Proof.
+  unfold dims_json. rewrite print_arr, map_map. f_equal. f_equal. f_equal.
+  apply map_ext. intros l. symmetry. apply jarr_strings_print.
+Qed.
+
+Lemma directive_doc_print ns sets decls :
+  print (directive_doc ns sets decls) = bs "{""Namespace"":" ++ jstr ns ++ slice_text sets decls.
+Proof.
+  unfold directive_doc, slice_text. rewrite print_obj_cons. unfold member. cbn [fst snd map concat].
+  unfold cm. cbn [fst snd]. rewrite dims_json_print, print_arr. fold (r_decls decls).
+  change (print (JStr ns)) with (print_str ns). change jstr with print_str.
+  unfold comma. lits. flat. reflexivity.
+Qed.
+
+Lemma aws_doc_print c ts dirs :
+  print (aws_doc c ts dirs) =
+  bs "{""CloudWatchMetrics"":[" ++ join comma (map print dirs) ++ lg_and_ts c ++ render_dec ts ++ bs "}".
+Proof.
+  unfold aws_doc, lg_and_ts. cbn [app]. rewrite print_obj_cons. unfold member. cbn [fst snd].
+  rewrite print_arr.
+  destruct (log_group c) as [g|]; cbn [app map concat]; unfold cm, comma; cbn [fst snd print];
+    change jstr with print_str; lits; flat; reflexivity.
+Qed.
+
+Lemma join_map_print_dirs (f : bytes -> json) (ns0 : bytes) (nss : list bytes) :
+  join comma (map print (map f (ns0 :: nss))) = print (f ns0) ++ concat (map (fun ns => comma ++ print (f ns)) nss).
+Proof. cbn [map]. rewrite join_cons_comma, !map_map. reflexivity. Qed.
+
+Lemma skipn_app_exact {A} (a b : list A) : skipn (length a) (a ++ b) = b.
+Proof. rewrite skipn_app, PeanoNat.Nat.sub_diag, skipn_all. reflexivity. Qed.
+
+(* one dimension-set record: the three buffers written for it are the printed document plus newline *)
+Lemma set_line c ts strings ns0 nss d s :
+  namespaces c = ns0 :: nss ->
+  RelSet c d s ->
+  pdata (ds_metrics (finish_dset c (render_dec ts) d)) ++ pdata (ds_fields (finish_dset c (render_dec ts) d)) ++
+    (r_cm strings ++ bs "}" ++ [10%N])
+  = print (set_doc c ts strings s) ++ [10%N].
+Proof.
+  intros Hns [Hk [Hf Hfp Hm Hmp Hne] Ha].
+  unfold finish_dset. cbn [ds_metrics ds_fields pb_push pdata].
+  set (sets := set_sets (as_each s) (as_key s)).
+  assert (Hm1 : pdata (ds_metrics d) ++ bs "]}" = head0 c ++ slice_text sets (as_decls s)).
+  { rewrite Hm. unfold set_head, slice_text. fold sets. rewrite <- !app_assoc. reflexivity. }
+  assert (Hlen : length (head0 c) <= length (pdata (ds_metrics d) ++ bs "]}")).
+  { rewrite Hm1, app_length. lia. }
+  rewrite (fold_extend_text (tl (ns_enc c)) (pdata (ds_metrics d) ++ bs "]}") [] (ds_after_ns d)
+            (fun ns => bs ",{""Namespace"":" ++ ns)).
+  2: { rewrite Ha. exact Hlen. }
+  2: { cbn [pb_push pdata]. rewrite app_nil_r. unfold pb_len. reflexivity. }
+  cbn [pb_push pdata]. rewrite Ha, Hm1, skipn_app_exact. cbn [app].
+  unfold set_doc. fold sets. rewrite print_obj_cons. unfold member. cbn [fst snd].
+  rewrite aws_doc_print. rewrite Hns.
+  change (map (fun base : list bytes => base ++ map fst (as_key s)) (as_each s)) with sets.
+  rewrite (join_map_print_dirs (fun ns => directive_doc ns sets (as_decls s)) ns0 nss).
+  unfold ns_enc. rewrite Hns. cbn [map tl].
+  rewrite !directive_doc_print.
+  unfold r_cm in *. rewrite !map_app, !concat_app. fold (keymembers (as_key s)).
+  rewrite Hf. unfold head0, first_ns, ns_enc. rewrite Hns. cbn [map hd].
+  rewrite map_map.
+  assert (E : forall x, (bs ",{""Namespace"":" ++ jstr x) ++ slice_text sets (as_decls s)
+                        = comma ++ print (directive_doc x sets (as_decls s))).
+  { intros x. rewrite directive_doc_print. unfold comma. lits. flat. reflexivity. }
+  rewrite (map_ext _ _ E).
+  unfold r_cm. lits. flat. reflexivity.
+Qed.
+
+Definition set_nonempty (s : aset) : bool := negb (match as_members s with [] => true | _ => false end).
+
+Lemma finish_dsets_docs c ts strings ns0 nss :
+  namespaces c = ns0 :: nss ->
+  forall ds sets, Forall2 (RelSet c) ds sets -> forall rec em,
+  finish_dsets c (render_dec ts) (r_cm strings ++ bs "}" ++ [10%N]) ds [] rec em =
+  (map (finish_dset c (render_dec ts)) ds, [],
+   rec ++ concat (map (fun s => print (set_doc c ts strings s) ++ [10%N]) (filter set_nonempty sets)),
+   em || existsb set_nonempty sets, WOk).
+Proof.
+  intros Hns. induction 1 as [|d s ds sets Hds HF IH]; intros rec em; cbn [finish_dsets map filter existsb concat].
+  - rewrite app_nil_r, Bool.orb_false_r. reflexivity.
+  - assert (He : pb_is_empty (ds_fields (finish_dset c (render_dec ts) d)) = negb (set_nonempty s)).
+    { unfold finish_dset. cbn [ds_fields]. rewrite (bufrel_is_empty _ _ _ _ _ _ (rs_buf c d s Hds)).
+      unfold set_nonempty. destruct (as_members s); reflexivity. }
+    rewrite He. destruct (set_nonempty s) eqn:Hne; cbn [negb].
+    + rewrite write_all_vectored_accept_all. cbn [concat]. rewrite app_nil_r.
+      rewrite (set_line c ts strings ns0 nss d s Hns Hds).
+      rewrite IH. cbn [map concat orb]. rewrite <- !app_assoc. rewrite Bool.orb_true_r. reflexivity.
+    + rewrite IH. cbn [orb]. reflexivity.
+Qed.
+
+(* ---------------------------------------------------------------- extra directives *)
+Lemma metric_def_json_print m : metric_def_json m = print (metric_def_doc m).
+Proof.
+  destruct m as [[name u] sr]. unfold metric_def_json, metric_def_doc. cbn [app].
+  rewrite print_obj_cons. unfold member. cbn [fst snd app map concat].
+  destruct sr as [r|]; destruct u as [|n]; cbn [app map concat unit_json unit_doc]; unfold cm, comma; cbn [fst snd print];
+    change jstr with print_str; lits; flat; reflexivity.
+Qed.
+
+Lemma directive_json_print d : directive_json d = print (extra_directive_doc d).
+Proof.
+  unfold directive_json, extra_directive_doc. rewrite print_obj_cons. unfold member. cbn [fst snd map concat].
+  unfold cm. cbn [fst snd]. rewrite dims_json_print, print_arr, map_map.
+  rewrite (map_ext _ _ metric_def_json_print).
+  change (print (JStr (d_namespace d))) with (print_str (d_namespace d)). change jstr with print_str.
+  unfold comma. lits. flat. reflexivity.
+Qed.
+
+Lemma extra_directives_print c :
+  extra_directives c = concat (map (fun d => comma ++ print (extra_directive_doc d)) (directives c)).
+Proof.
+  unfold extra_directives. induction (directives c) as [|d r IH]; [reflexivity|].
+  cbn [flat_map map concat]. rewrite IH, directive_json_print. reflexivity.
+Qed.
+
+Lemma join_print_app (x : json) (A B : list json) :
+  join comma (map print ((x :: A) ++ B)) =
+  print x ++ concat (map (fun j => comma ++ print j) A) ++ concat (map (fun j => comma ++ print j) B).
+Proof. cbn [app map]. rewrite join_cons_comma, map_map, map_app, concat_app. reflexivity. Qed.
+
+(* the global record *)
+Lemma global_line c ts ns0 nss w a dim :
+  namespaces c = ns0 :: nss ->
+  Rel c w a ->
+  pb_clear dim = pb_new (dims_prefix c) ->
+  let dims_list := match entry_dims w with Some e => e | None => each_dims_enc c end in
+  let dim1 := pb_push (pb_clear dim) (join comma dims_list) in
+  let mb1 := pb_push (metrics (w_state w)) (bs "]}") in
+  let mb2 := fold_left (fun mb ns =>
+               pb_extend_within (pb_push mb (bs ",{""Namespace"":" ++ ns ++ skipn (after_ns_index c) (pdata dim1))) 0 (pb_len mb1))
+               (tl (ns_enc c)) mb1 in
+  pdata dim1 ++ pdata mb2 ++ (pdata (decl (w_state w)) ++ lg_and_ts c ++ render_dec ts) ++ pdata (fields (w_state w)) ++
+    (pdata (string_fields (w_state w)) ++ bs "}" ++ [10%N])
+  = print (global_doc c ts a) ++ [10%N].
+Proof.
+  intros Hns [A B [Hf Hfp Hm Hmp Hne] D E F G] Hclr. cbv zeta.
+  rewrite Hclr. cbn [pb_push pb_new pdata].
+  assert (Hdl : match entry_dims w with Some e => e | None => each_dims_enc c end = map jarr_strings (base_dims c a)).
+  { unfold base_dims. rewrite F. destruct (a_edims a); reflexivity. }
+  rewrite Hdl.
+  set (J := join comma (map jarr_strings (base_dims c a))).
+  assert (Hdp : dims_prefix c = head0 c ++ dims_after_ns).
+  { unfold dims_prefix, head0. rewrite <- app_assoc. reflexivity. }
+  assert (Hai : after_ns_index c = length (head0 c)).
+  { unfold after_ns_index. rewrite Hdp, app_length. lia. }
+  assert (Hsk : skipn (after_ns_index c) (dims_prefix c ++ J) = dims_after_ns ++ J).
+  { rewrite Hai, Hdp, <- app_assoc. apply skipn_app_exact. }
+  rewrite Hsk.
+  rewrite (fold_extend_text (tl (ns_enc c)) (pdata (metrics (w_state w)) ++ bs "]}") [] 0
+            (fun ns => bs ",{""Namespace"":" ++ ns ++ dims_after_ns ++ J)).
+  2: lia.
+  2: { cbn [pb_push pdata]. rewrite app_nil_r. reflexivity. }
+  cbn [skipn app]. rewrite Hm, Hf, A, D.
+  unfold global_doc. rewrite print_obj_cons. unfold member. cbn [fst snd].
+  rewrite aws_doc_print. rewrite Hns. cbn [map].
+  rewrite (join_print_app (directive_doc ns0 (base_dims c a) (a_decls a))).
+  rewrite !map_map. rewrite directive_doc_print.
+  unfold ns_enc. rewrite Hns. cbn [map tl]. rewrite map_map.
+  assert (E2 : forall x, (bs ",{""Namespace"":" ++ jstr x ++ dims_after_ns ++ J) ++ (bs "],""Metrics"":[" ++ r_decls (a_decls a)) ++ bs "]}"
+                        = comma ++ print (directive_doc x (base_dims c a) (a_decls a))).
+  { intros x. rewrite directive_doc_print. unfold slice_text, dims_after_ns, comma. fold J. lits. flat. reflexivity. }
+  rewrite (map_ext _ _ E2).
+  rewrite extra_directives_print.
+  rewrite Hdp. unfold head0, first_ns, ns_enc, slice_text, dims_after_ns. rewrite Hns. cbn [map hd]. fold J.
+  unfold r_cm. rewrite !map_app, !concat_app.
+  lits. flat. reflexivity.
+Qed.
+
+Lemma filter_nil_existsb {A} (f : A -> bool) l :
+  (match filter f l with [] => true | _ => false end) = negb (existsb f l).
+Proof. induction l as [|x r IH]; [reflexivity|]. cbn. destruct (f x); [reflexivity | exact IH]. Qed.
+
+(* ================================================================ the refinement theorem *)
+Theorem format_prints_docs c ns0 nss mult e now ftab s' out :
+  namespaces c = ns0 :: nss ->
+  format c (fresh c) mult e now ftab [] = (s', ROk, out) ->
+  out = concat (map (fun d => print d ++ [10%N]) (emf_docs c mult e now ftab)).
+Proof.
+  intros Hns Hf. unfold format in Hf.
+  pose proof (finish_ok_no_errors _ _ _ _ _ _ _ _ Hf) as [Hno Hmiss].
+  set (w := fold_left (do_item c ftab mult) e (init_writer c (st (fresh c)))) in *.
+  pose proof (rel_fold c ftab mult e _ _ (rel_init c) Hno) as HR. fold w in HR.
+  fold (abuild c ftab mult e) in HR. set (a := abuild c ftab mult e) in *.
+  unfold finish in Hf.
+  destruct (errors w ++ (if negb (skip_dims c) && negb (unroutable w) then missing_dim_errors w else [])) as [|x xs];
+    [|discriminate].
+  pose proof HR as [A B C D E F G].
+  set (tsn := match w_timestamp w with Some t => millis t | None => now end) in *.
+  assert (Hsf : pdata (pb_push (string_fields (w_state w)) (bs "}" ++ [10%N])) = r_cm (a_strings a) ++ bs "}" ++ [10%N]).
+  { cbn [pb_push pdata]. rewrite A. reflexivity. }
+  rewrite Hsf in Hf.
+  rewrite (finish_dsets_docs c tsn (a_strings a) ns0 nss Hns _ _ E) in Hf.
+  cbn [orb app] in Hf.
+  rewrite (bufrel_is_empty _ _ _ _ _ _ C) in Hf.
+  unfold emf_docs. fold a. rewrite <- G. fold tsn.
+  change (fun s : aset => negb match as_members s with [] => true | _ :: _ => false end) with set_nonempty.
+  rewrite filter_nil_existsb.
+  rewrite map_app, concat_app, map_map.
+  destruct (negb (existsb set_nonempty (a_sets a)) || negb match a_members a with [] => true | _ :: _ => false end) eqn:Hc.
+  - rewrite write_all_vectored_accept_all in Hf.
+    pose proof (f_equal snd Hf) as Ho. cbn [snd] in Ho. subst out. clear Hf.
+    f_equal. cbn [concat map]. rewrite !app_nil_r. rewrite <- A.
+    pose proof (global_line c tsn ns0 nss w a (dimensions (fresh c)) Hns HR (pb_clear_new _)) as GL.
+    cbv zeta in GL. exact GL.
+  - pose proof (f_equal snd Hf) as Ho. cbn [snd] in Ho. subst out.
+    cbn [map concat]. rewrite app_nil_r. reflexivity.
 Qed.
